@@ -892,8 +892,9 @@ func dgRunCase(c *Ctx, cs *CaseSet, k *dgCase) {
 	sort.Strings(k.labels)
 	cs.Add(in, obs, strings.Join(k.labels, ",")+" => "+class)
 	if dgReaderSet != nil {
-		// same input, same expected stages; no entry of the canon table and none of the reparse table may differ from the model
-		obs2 := VL([]string{VL([]string{out, found, dgOptBytes(sh.haveSI, sh.si), dgOptBytes(sh.haveRef, sh.ref), VB(true)}), VL(nil), VL(nil)})
+		// same input, same expected stages; no entry of the canon table and none of the reparse table may differ from the model;
+		// the element (delivered by etree) must satisfy the premise of the round-trip theorems
+		obs2 := VL([]string{VL([]string{out, found, dgOptBytes(sh.haveSI, sh.si), dgOptBytes(sh.haveRef, sh.ref), VB(true)}), VL(nil), VL(nil), VB(true)})
 		dgReaderSet.Add(in, obs2, strings.Join(k.labels, ",")+" => "+class)
 		c.Rep.Distribution["reparse:table-entries-recomputed-by-model"] += len(t.reparse)
 	}
